@@ -56,14 +56,14 @@ func replayCase(c *mon.Ctx) (level string, index int, hist *boxHistory) {
 // ---------------------------------------------------------------------------
 
 type chunkSpec struct {
-	Prop      string  `json:"prop"`
-	Stream    string  `json:"stream"`
-	Seed      uint64  `json:"seed"`
-	From      int     `json:"from"`
-	To        int     `json:"to"`
-	MaxEvents int     `json:"max_events"`
-	Natural   bool    `json:"natural"`
-	CrashUpTo int     `json:"crash_up_to"` // C03: scenarios with index < CrashUpTo get the crash/restart experiment
+	Prop      string `json:"prop"`
+	Stream    string `json:"stream"`
+	Seed      uint64 `json:"seed"`
+	From      int    `json:"from"`
+	To        int    `json:"to"`
+	MaxEvents int    `json:"max_events"`
+	Natural   bool   `json:"natural"`
+	CrashUpTo int    `json:"crash_up_to"` // C03: scenarios with index < CrashUpTo get the crash/restart experiment
 }
 
 type chunkFinding struct {
